@@ -98,6 +98,14 @@ impl Reader {
         block_check: BlockCheck,
         in_memory: bool,
     ) -> Result<(Arc<dyn Source>, Region)> {
+        // What we cut (with its crc) must be inside what we have.
+        // This is not the case with a truncated file or corrupted offset/size.
+        if !(offset + size + block_check.size()).is_valid(self.region.size()) {
+            return Err(format_error!(format!(
+                "Cannot cut {size} bytes at offset {offset} in a reader of {} bytes",
+                self.region.size()
+            )));
+        }
         let region = self.region.cut_rel(offset, size);
         Arc::clone(&self.source).cut(region, block_check, in_memory)
     }
